@@ -13,17 +13,25 @@ def is_bv(t):
     return z3.is_bv(t)
 
 
+_DEPTH = {}
+
+
 def _depth(t, cap=NAME_LIMIT + 2):
-    d, cur = 0, [t]
-    while cur and d < cap:
-        nxt = []
-        for x in cur:
-            if z3.is_app(x):
-                nxt.extend(x.children())
-        if not nxt:
-            break
-        cur = nxt[:8]
-        d += 1
+    """depth of a term, memoised per AST id (the entry keeps the term alive, so the id cannot be reused)"""
+    key = t.get_id()
+    hit = _DEPTH.get(key)
+    if hit is not None:
+        return hit[0]
+    if len(_DEPTH) > 300000:
+        _DEPTH.clear()
+    d = 0
+    if z3.is_app(t):
+        n = t.num_args()
+        if n:
+            d = 1 + max(_depth(t.arg(i)) for i in range(n))
+            if d > cap:
+                d = cap
+    _DEPTH[key] = (d, t)
     return d
 
 
